@@ -72,6 +72,9 @@ struct hm {
     use_hm_map<xenium::harris_michael_hash_map<int, std::string, p::reclaimer<R>, p::memoize_hash<true>>, int, std::string>(1, "b");
     use_hm_set<xenium::harris_michael_list_based_set<int, p::reclaimer<R>>, int>(1);
     use_hm_set<xenium::harris_michael_list_based_set<std::string, p::reclaimer<R>>, std::string>("a");
+    // a configured backoff strategy: code under `if constexpr (backoff is not no_backoff)` exists only in these instantiations
+    use_hm_set<xenium::harris_michael_list_based_set<int, p::reclaimer<R>, p::backoff<xenium::exponential_backoff<16>>>, int>(1);
+    use_hm_map<xenium::harris_michael_hash_map<int, int, p::reclaimer<R>, p::backoff<xenium::single_backoff>>, int, int>(1, 2);
   }
 };
 
@@ -108,6 +111,7 @@ struct vy {
     use_vyukov<xenium::vyukov_hash_map<std::string, std::string, p::reclaimer<R>>, std::string, std::string>("k", [] { return std::string("v"); });
     // a configured hash that differs from the default, with a trivial and a non-trivial key (grow() re-hashes with the configured functor)
     use_vyukov<xenium::vyukov_hash_map<int, int, p::reclaimer<R>, p::hash<colliding_hash>>, int, int>(1, [] { return 2; });
+    use_vyukov<xenium::vyukov_hash_map<int, int, p::reclaimer<R>, p::backoff<xenium::single_backoff>>, int, int>(1, [] { return 2; });
     use_vyukov<xenium::vyukov_hash_map<std::string, int, p::reclaimer<R>, p::hash<colliding_hash>>, std::string, int>("k", [] { return 2; });
   }
 };
